@@ -7,6 +7,7 @@
 (*   [t |-> "f", v |-> Int]     DOUBLE carried as twice its value (halves only)  *)
 (*   [t |-> "b", v |-> BOOLEAN]                                                  *)
 (*   [t |-> "s", v |-> Seq(Nat)] TEXT as code points                             *)
+(*   [t |-> "s", v |-> <<c>>, rep |-> n]  a run of n >= 256 copies of one character *)
 (*   [t |-> "x", v |-> STRING]  a double TLC cannot carry (opaque)               *)
 (*   [t |-> "e"]                evaluation error (division by zero)              *)
 (* Every predicate is written with IF/THEN/ELSE: TLC evaluates all disjuncts of  *)
@@ -43,7 +44,14 @@ Cmp3(a, b) ==
       ELSE IF IsOpq(a) THEN (IF a.fl < Twice(b) THEN -1 ELSE 1)
       ELSE (IF Twice(a) <= b.fl THEN -1 ELSE 1))
   ELSE IF IsNum(a) /\ IsNum(b) THEN (IF Twice(a) < Twice(b) THEN -1 ELSE IF Twice(a) = Twice(b) THEN 0 ELSE 1)
-  ELSE IF a.t = "s" /\ b.t = "s" THEN SeqCmp(a.v, b.v)
+  ELSE IF a.t = "s" /\ b.t = "s" THEN
+          \* a long run of one character is carried as [v |-> <<c>>, rep |-> length]: two runs compare by (c, length)
+          IF "rep" \in DOMAIN a \/ "rep" \in DOMAIN b
+          THEN (IF "rep" \in DOMAIN a /\ "rep" \in DOMAIN b
+                THEN (IF a.v[1] # b.v[1] THEN (IF a.v[1] < b.v[1] THEN -1 ELSE 1)
+                      ELSE IF a.rep < b.rep THEN -1 ELSE IF a.rep = b.rep THEN 0 ELSE 1)
+                ELSE 2)
+          ELSE SeqCmp(a.v, b.v)
   ELSE IF a.t = "b" /\ b.t = "b" THEN (IF a.v = b.v THEN 0 ELSE IF b.v THEN -1 ELSE 1)
   ELSE IF a = b THEN 0 ELSE 2                              \* incomparable classes: not equal, no order
 
